@@ -82,11 +82,14 @@ Invertible(gs) == \A j \in 1..Len(gs) : gs[j].name \in InvertibleNames
 \* fixedN: 0 or the n_qubits given at construction; wdoc: the width rule of this object is documented
 \* (width = WidthOf(gates, fixedN) and add_gate range check against fixedN); prov: provenance tag naming the
 \* undocumented situation the object went through ("" if none)
-Ann(fixedN, wdoc, prov) == [fixedN |-> fixedN, wdoc |-> wdoc, prov |-> prov]
+\* qidx: for a fixed-width object, the set of qubit indices of the circuit (the domain of reindex_qubits): all of
+\* 0..n-1 when it is constructed, the trimmed range after trim_qubits, the new indices after reindex_qubits
+Ann(fixedN, wdoc, prov) == [fixedN |-> fixedN, wdoc |-> wdoc, prov |-> prov, qidx |-> 0..(fixedN - 1)]
+AnnQ(a, q) == [a EXCEPT !.qidx = q]
 FreeAnn == Ann(0, TRUE, "")
 
 \* the circuit's qubit indices in the documented cases (reindex_qubits domain)
-QIdxOf(gs, ann) == IF ann.fixedN > 0 THEN 0..(ann.fixedN - 1) ELSE Used(gs)
+QIdxOf(gs, ann) == IF ann.fixedN > 0 THEN ann.qidx ELSE Used(gs)
 
 ReindexGates(gs, S, new) == Relabel(gs, TLCEval([q \in S |-> new[Rank(S, q) + 1]]))
 =============================================================================
